@@ -25,9 +25,13 @@
 (* batch size, in any order relative to uses of other objects, merges,      *)
 (* siblings and cache set-ups) delivers the object's own content.           *)
 (* KeysDistinct: two objects with different content never address the same  *)
-(* file.  Both are theorems for AllowNested = FALSE.  With nested HeavyCall *)
-(* stages set_cached_file hands the *same* name to the inner stage, and     *)
-(* TLC refutes both (design-level finding, replayed on the code).           *)
+(* file.  Both are theorems of the configuration StageNames = TRUE, which   *)
+(* mirrors the code since commit e54b9e2: set_cached_file hands the stage   *)
+(* k levels below the name extended by k markers "_x" (atom -1).            *)
+(* StageNames = FALSE is the code before: every stage below got the *same*  *)
+(* name, two nested HeavyCall stages shared one file, and TLC refutes       *)
+(* UseFaithful / KeysDistinct for nested chains (kept as a sensitivity      *)
+(* probe and to recognise a regression); the *Flat variants hold there.     *)
 EXTENDS Integers, Sequences, FiniteSets, TLC
 
 CONSTANTS NBase,        \* number of base samples (1..NBase)
@@ -36,6 +40,7 @@ CONSTANTS NBase,        \* number of base samples (1..NBase)
           MaxMerges,    \* largest number of Merge steps
           Dirs,         \* cache kinds offered to set_cached_file: subset of {1, 2}
           AllowNested,  \* offer Wrap (a second HeavyCall stage on an object)
+          StageNames,   \* TRUE: a distinct name per stage (name + "_x", commit e54b9e2); FALSE: the same name for all stages
           MaxDepth,     \* histories of at most this many steps (state constraint)
           MergeNames    \* TRUE: merge appends "_" + other.name (the code); FALSE: keeps the first name
 
@@ -87,10 +92,12 @@ Use(o, b) ==
        /\ obs' = [kind |-> "use", o |-> o, b |-> b, ok |-> read = own, read |-> read, own |-> own, fromfile |-> hit]
     /\ UNCHANGED nmerge
 
-\* set_cached_file(dir, name): the object and every stage below get the SAME name
+\* set_cached_file(dir, name): the object gets the name, the stage k levels below
+\* the name with k markers "_x" (StageNames) -- formerly the same name
 RECURSIVE SetBelow(_, _, _, _)
 SetBelow(os, o, d, nm) ==
-    LET below == IF os[o].inner = 0 THEN os ELSE SetBelow(os, os[o].inner, d, nm)
+    LET below == IF os[o].inner = 0 THEN os
+                 ELSE SetBelow(os, os[o].inner, d, IF StageNames THEN nm \o <<-1>> ELSE nm)
     IN [below EXCEPT ![o].dir = d, ![o].name = nm]
 SetCachedFile(o, d) ==
     /\ o \in 1..Len(objs) /\ d \in Dirs
@@ -143,9 +150,8 @@ Below(os, a, b) == os[b].inner # 0 /\ (os[b].inner = a \/ Below(os, a, os[b].inn
 Related(os, a, b) == Below(os, a, b) \/ Below(os, b, a)
 InChain(os, o) == os[o].inner # 0 \/ \E p \in 1..Len(os) : os[p].inner = o
 
-\* every use delivers the object's own content.  Theorem for objects that are
-\* not part of a nested chain of HeavyCall stages (UseFaithfulFlat); for
-\* nested stages it is refuted: set_cached_file gives both stages one name
+\* every use delivers the object's own content.  Theorem with StageNames = TRUE;
+\* with StageNames = FALSE only for objects outside a nested chain (UseFaithfulFlat)
 UseFaithful == obs.kind = "use" => obs.ok
 UseFaithfulFlat == (obs.kind = "use" /\ ~InChain(objs, obs.o)) => obs.ok
 \* distinct contents never share a file key
@@ -155,6 +161,9 @@ KeyClash(o1, o2, b) == /\ objs[o1].dir = 2 /\ objs[o2].dir = 2
 KeysDistinct == \A o1, o2 \in 1..Len(objs) : \A b \in Batches : ~KeyClash(o1, o2, b)
 KeysDistinctFlat == \A o1, o2 \in 1..Len(objs) : \A b \in Batches : KeyClash(o1, o2, b) => Related(objs, o1, o2)
 \* a file holds the content of whoever addresses it
+FilesTruthful ==
+    \A f \in files : \A o \in 1..Len(objs) : \A b \in Batches :
+        (objs[o].dir = 2 /\ KeyOf(objs[o], b) = f[1]) => f[2] = Content(objs, o, b)
 FilesTruthfulFlat ==
     \A f \in files : \A o \in 1..Len(objs) : \A b \in Batches :
         (objs[o].dir = 2 /\ KeyOf(objs[o], b) = f[1] /\ ~InChain(objs, o)) => f[2] = Content(objs, o, b)
